@@ -15,10 +15,15 @@ import uuid
 import common
 
 MAX_BARRIER = 2000
+SECRET = "c10-wire-handshake"      # every proxy of the rig carries this handshake; the daemon refuses any other
 
 
 class WireRig:
-    def __init__(self):
+    """mode "loop": the daemon's own requestLoop() serves; mode "events": the application's own loop selects on
+    daemon.sockets and hands the ready ones to daemon.events() (requestLoop is never entered)"""
+
+    def __init__(self, mode="loop"):
+        self.mode = mode
         common.repo_on_path()
         from props import c10 as base
         from Pyro5 import server, config, callcontext, api
@@ -36,9 +41,15 @@ class WireRig:
         self.tmp = tempfile.mkdtemp(prefix="c10wire")
         rig = self
         self.disconnects = 0        # connections whose end the server has processed (counted by the daemon's disconnect hook)
-        self.expected = 0           # connections the clients have ended
+        self.accepted = 0           # connections whose handshake the daemon has accepted
 
         class WireDaemon(server.Daemon):
+            def validateHandshake(self, conn, data):
+                if data != SECRET:
+                    raise ValueError("this daemon only talks to clients that present its handshake")
+                rig.accepted += 1
+                return "hello"
+
             def clientDisconnect(self, conn):
                 rig.disconnects += 1
 
@@ -60,11 +71,25 @@ class WireRig:
             def ping(self):
                 return "pong"
 
+            # a remote PROPERTY whose value is an iterator: read through the `__getattr__` pseudo-method (server.py 456-468)
+            def prepare(self, items, kind):
+                self._pending = (items, kind)
+                return True
+
+            @property
+            def stream(self):
+                items, kind = self._pending
+                return self.gen(items, kind)
+
             # the clock and the settings change INSIDE the server thread, between two requests: the housekeeping pass that
             # follows a reply runs concurrently with the client, so the client never touches what that pass reads
             def tick(self, dt):
                 rig.clock.now += dt
                 return rig.clock.now
+
+            def drop(self, sid):
+                rig.daemon.streaming_responses.pop(sid, None)
+                return True
 
             def reset(self, lifetime, linger, now):
                 config.ITER_STREAMING, config.ITER_STREAM_LIFETIME, config.ITER_STREAM_LINGER = True, lifetime, linger
@@ -93,13 +118,27 @@ class WireRig:
             self._restore()
             raise
         self.uri = self.daemon.register(Source(), "src")
-        self.thread = threading.Thread(target=self.daemon.requestLoop, name="c10-wire-server", daemon=True)
+        self.stop = False
+        target = self.daemon.requestLoop if mode == "loop" else self._own_loop
+        self.thread = threading.Thread(target=target, name="c10-wire-server", daemon=True)
         self.thread.start()
         self.traffic = self.proxy()      # the other client that keeps the server busy
+
+    def _own_loop(self):
+        """an application's event loop: select on the daemon's sockets, let the daemon handle the ready ones"""
+        import select
+        while not self.stop:
+            try:
+                ready, _, _ = select.select(list(self.daemon.sockets), [], [], 0.05)
+            except (OSError, ValueError):
+                continue
+            if ready:
+                self.daemon.events(ready)
 
     def proxy(self):
         from Pyro5 import client
         p = client.Proxy(self.uri)
+        p._pyroHandshake = SECRET
         p._pyroTimeout = 30           # a hang becomes an error, never a stuck run
         return p
 
@@ -117,10 +156,16 @@ class WireRig:
             self.ping()
         raise RuntimeError("c10 wire rig: %s did not happen within %d round trips" % (what, MAX_BARRIER))
 
-    def ended(self, n=1):
-        """the clients ended n connections: wait until the server has processed every connection end so far"""
-        self.expected += n
-        self.barrier(lambda: self.disconnects >= self.expected, "disconnect")
+    def settle(self, open_conns):
+        """everything the clients have done so far has been processed by the server: two round trips (whatever was sent before
+        them has been dispatched: one server thread, in arrival order), the oneway call threads started so far have finished,
+        and every connection the clients no longer hold has been seen ending (accepted - ended = still open)"""
+        self.ping()
+        self.ping()
+        for t in threading.enumerate():
+            if type(t).__name__ == "_OnewayCallThread":
+                t.join(30)
+        self.barrier(lambda: self.accepted - self.disconnects <= open_conns, "the end of the clients' closed connections")
 
     def _restore(self):
         (self.server.time, self.config.SERVERTYPE, self.config.POLLTIMEOUT, self.config.COMMTIMEOUT, self.config.ITER_STREAMING,
@@ -133,7 +178,12 @@ class WireRig:
             except Exception:
                 pass
             self.daemon.streaming_responses = {}
-            self.daemon.shutdown()
+            if self.mode == "loop":
+                self.daemon.shutdown()
+            else:
+                self.stop = True
+                self.thread.join(10)
+                self.daemon.close()
             self.thread.join(10)
         finally:
             self._restore()
@@ -152,7 +202,8 @@ def gen_case(rng, base):
         if opened < nstreams and (r < 0.25 or opened == 0):
             items = base.gen_items(rng)
             wf = all(k == "v" for k, _ in items[:-1])
-            ops.append(["open", rng.randrange(nprox), items, "gen" if (wf and rng.random() < 0.6) else "class"])
+            ops.append(["open", rng.randrange(nprox), items, "gen" if (wf and rng.random() < 0.6) else "class",
+                        "property" if rng.random() < 0.3 else "method"])
             opened += 1
         elif r < 0.62:
             ops.append(["next", rng.randrange(opened)])
@@ -197,6 +248,9 @@ def run_case(rig, case):
     def connected(p):
         return proxies[p]._pyroConnection is not None
 
+    def open_conns():
+        return 1 + sum(1 for p in range(case["nprox"]) if connected(p))     # the traffic client + the connected proxies
+
     def set_corr():
         rig.ctxobj.correlation_id = {"none": None, "fixed": fixed, "fresh": uuid.uuid4()}[case["corr"]]
 
@@ -213,18 +267,37 @@ def run_case(rig, case):
             res = "-"
             if k == "open":
                 p = op[1]
+                via = op[4] if len(op) > 4 else "method"
                 ensure_epoch(p)
                 set_corr()
-                it = getattr(proxies[p], "gen")([list(i) for i in op[2]], op[3])
+                items = [list(i) for i in op[2]]
+                try:
+                    if via == "property":
+                        # the value of an exposed property: the `__getattr__` pseudo-method, same _streamResponse
+                        proxies[p].prepare(items, op[3])
+                        after_request()
+                        it = proxies[p].stream
+                    else:
+                        it = proxies[p].gen(items, op[3])
+                    if not hasattr(it, "streamId"):
+                        raise TypeError("got %r" % (it,))
+                except Exception as x:
+                    it = None
+                    bad("wire:open-failed", "a remote %s whose result is an iterator (streaming enabled) did not give the client a "
+                        "stream: %s: %s; the server's table now holds %d stream(s) the client cannot reach"
+                        % (via, type(x).__name__, str(x)[:120], len(rig.daemon.streaming_responses) - len([i for i in iters if i is not None])))
                 iters.append(it)
                 owner_proxy.append(p)
-                sids.append(it.streamId)
-                spec.open(len(iters) - 1, [tuple(i) for i in op[2]], conn_of(p), rig.clock.now)
+                sids.append(it.streamId if it is not None else "no-stream-%d" % len(sids))
+                if it is not None:
+                    spec.open(len(iters) - 1, [tuple(i) for i in op[2]], conn_of(p), rig.clock.now)
                 after_request()
-                res = "iter%d" % (len(iters) - 1)
+                res = "iter%d" % (len(iters) - 1) if it is not None else "open-failed"
                 if len(set(sids)) != len(sids):
                     bad("wire:stream-id-reused", "two streams open under the same stream id %r (correlation id mode %s)"
-                        % (it.streamId, case["corr"]))
+                        % (sids[-1], case["corr"]))
+            elif k in ("next", "close") and iters[op[1]] is None:
+                pass
             elif k == "next":
                 s = op[1]
                 it = iters[s]
@@ -259,16 +332,19 @@ def run_case(rig, case):
                 it.close()
                 if live:
                     spec.close(s)
-                    sid = sids[s]
-                    rig.barrier(lambda: sid not in rig.daemon.streaming_responses, "close_stream (oneway)")
-                    if diverged:
-                        rig.ended()      # the temporary second connection of the closing proxy
+                    rig.settle(open_conns())       # incl. the temporary second connection of a diverged close
+                    if sids[s] in rig.daemon.streaming_responses:
+                        bad("wire:close-not-forwarded", "it.close() on stream %d (proxy connected, %s) returned, but the server never "
+                            "received close_stream: it still remembers the stream and would go on serving it"
+                            % (s, "sequence numbers diverged: closed through a temporary second connection"
+                               if diverged else "same proxy"))
+                        rig.traffic.drop(sids[s])
                     after_request()
             elif k == "release":
                 p = op[1]
                 if connected(p):
                     proxies[p]._pyroRelease()
-                    rig.ended()
+                    rig.settle(open_conns())
                     spec.disconnect(conn_of(p), rig.clock.now)
                     after_request()
             elif k == "connect":
@@ -291,62 +367,64 @@ def run_case(rig, case):
         for p in range(case["nprox"]):
             if connected(p):
                 proxies[p]._pyroRelease()
-                rig.ended()
+                rig.settle(open_conns())
         rig.traffic.tick(max(cfg["lifetime"], cfg["linger"], 0) + 1)
         rig.barrier(lambda: True, "traffic")
         left = [sids.index(s) for s in list(rig.daemon.streaming_responses) if s in sids]
+        orphans = [s for s in list(rig.daemon.streaming_responses) if s not in sids]
         if left:
             bad("wire:not-forgotten", "multiplex server under steady traffic: every stream's connection has ended and lifetime %s / "
                 "linger %s have passed, but the server still remembers streams %s (housekeeping is not being run)"
                 % (cfg["lifetime"], cfg["linger"], sorted(left)))
+        if orphans and not fails:
+            bad("wire:not-forgotten", "the server holds %d stream(s) that no client ever received" % len(orphans))
         return transcript, fails
     finally:
         rig.ctxobj.correlation_id = None
         for it in iters:
-            it.proxy = None
-        n = 0
+            if it is not None:
+                it.proxy = None
         for p in proxies:
             try:
-                if p._pyroConnection is not None:
-                    n += 1
                 p._pyroRelease()
             except Exception:
                 pass
-        if n:
-            rig.ended(n)
+        rig.settle(1)
 
 
 def _norm_case(c):
     c = dict(c)
-    c["ops"] = [[o[0], o[1], [tuple(i) for i in o[2]], o[3]] if o[0] == "open" else list(o) for o in c["ops"]]
+    c["ops"] = [[o[0], o[1], [tuple(i) for i in o[2]]] + list(o[3:]) if o[0] == "open" else list(o) for o in c["ops"]]
     return c
 
 
 def wire(ctx, n):
     from props import c10 as base
     rng = ctx.sub_rng("wire")
-    rig = WireRig()
-    try:
-        cases = [(_norm_case(c["case"]), f) for f, c in base._corpus("wire")]
-        cases += [(gen_case(rng, base), None) for _ in range(n)]
-        for case, origin in cases:
-            transcript, fails = run_case(rig, case)
-            ctx.evaluations += 1
-            ctx.count("wire:corr-%s/linger%s/lifetime%s" % (case["corr"], "+" if case["cfg"]["linger"] > 0 else "0",
-                                                           "+" if case["cfg"]["lifetime"] > 0 else "0"))
-            for r in transcript:
-                if r != "-":
-                    ctx.count("wire-reply:" + r.rstrip("0123456789"))
-            if sum(1 for r in transcript if r.startswith("item")) >= 2 and "term" in transcript:
-                ctx.nontriv(("wire", repr(case)))
-            for sig, desc in fails:
-                ctx.fail(sig, desc + ("" if origin is None else " (corpus %s)" % origin), {"kind": "wire", "case": case})
-    finally:
-        rig.close()
+    for mode in ("loop", "events"):
+        rig = WireRig(mode)
+        try:
+            cases = [(_norm_case(c["case"]), f) for f, c in base._corpus("wire")]
+            cases += [(gen_case(rng, base), None) for _ in range(n // 2)]
+            for case, origin in cases:
+                transcript, fails = run_case(rig, case)
+                ctx.evaluations += 1
+                ctx.count("wire:%s/corr-%s/linger%s/lifetime%s" % (mode, case["corr"], "+" if case["cfg"]["linger"] > 0 else "0",
+                                                                  "+" if case["cfg"]["lifetime"] > 0 else "0"))
+                for r in transcript:
+                    if r != "-":
+                        ctx.count("wire-reply:" + r.rstrip("0123456789"))
+                if sum(1 for r in transcript if r.startswith("item")) >= 2 and "term" in transcript:
+                    ctx.nontriv(("wire", mode, repr(case)))
+                for sig, desc in fails:
+                    ctx.fail(sig, desc + " [server driven by %s]" % ("requestLoop()" if mode == "loop" else "the application's own loop through daemon.events()")
+                             + ("" if origin is None else " (corpus %s)" % origin), {"kind": "wire", "mode": mode, "case": case})
+        finally:
+            rig.close()
 
 
 def replay_case(c):
-    rig = WireRig()
+    rig = WireRig(c.get("mode", "loop"))
     try:
         transcript, fails = run_case(rig, _norm_case(c["case"]))
         print("transcript", transcript)
